@@ -22,7 +22,7 @@ SIGS = [
     [("a", None), ("b", None), ("c", "3")],
     [("a", None), ("*", "args")], [("a", None), ("b", "2"), ("**", "kw")], [("a", None), ("b", "2"), ("*", "args"), ("**", "kw")],
 ]
-KINDS = ["function", "method", "method-chain", "classmethod", "ctor"]
+KINDS = ["function", "method", "method-chain", "classmethod", "classmethod-on-instance", "ctor"]
 HOSTS = ["same", "import", "from"]
 BODY = "print(sorted((k, v) for k, v in locals().items() if k not in ('self', 'cls')))"
 
@@ -108,6 +108,10 @@ def _make_project(kind, sig, calls, host, wrapped=False):
         xd = "class K:\n    @classmethod\n    def f(cls, %s):\n        %s\n\n\n" % (st, BODY)
         callee = "K.f"
         pre = ""
+    elif kind == "classmethod-on-instance":
+        xd = "class K:\n    @classmethod\n    def f(cls, %s):\n        %s\n\n\nk = K()\n" % (st, BODY)
+        callee = "k.f"
+        pre = ""
     else:
         xd = "class K:\n    def __init__(self, %s):\n        %s\n\n\n" % (st, BODY)
         callee = "K"
@@ -176,9 +180,9 @@ IP_SIGS = [("none", "", ["()"]), ("one", "a", ["(1)", "(a=1)"]), ("default", "a,
            ("star", "a, *args", ["(1)", "(1, 5, 6)"]), ("dstar", "a, **kw", ["(1)", "(1, z=7)"]), ("kwonly", "a, *, k=1", ["(1)", "(1, k=8)"]),
            ("annotated", "a: int = 1", ["()", "(9)"])]
 IP_EXPRS = {"global": "G", "attr": "obj.attr", "module-attr": "xlib.V", "attr-chain": "obj.inner.deep", "param-attr": "a.real", "local": "loc",
-            "self-attr": "self.k", "builtin": "len"}
+            "self-attr": "self.k", "builtin": "len", "local-subscript-attr": "lst[0].attr", "global-subscript-attr": "GL[0].attr"}
 IP_BODIES = {
-    "once": "    loc = 'loc'\n    print('f', {shown}, {e})\n",
+    "once": "    loc = 'loc'\n    lst = [obj]\n    print('f', {shown}, {e})\n",
     "twice": "    loc = 'loc'\n    first = {e}\n    print('f', {shown}, first, {e})\n",
     "in-lambda": "    loc = 'loc'\n    print('f', {shown}, (lambda: {e})())\n",
     "in-nested-def": "    loc = 'loc'\n\n    def inner():\n        return {e}\n    print('f', {shown}, inner())\n",
@@ -197,7 +201,7 @@ def ip_project(kind, sig, ek, bk):
     names = [x.split(":")[0].split("=")[0].strip().lstrip("*") for x in sigtxt.split(",") if x.strip() and x.strip() != "*"]
     shown = ", ".join(names) if names else "0"
     body = IP_BODIES[bk].format(shown=shown, e=e)
-    head = "import xlib\n\nG = 'xd.G'\n\n\nclass Inner:\n    deep = 'Inner.deep'\n\n\nclass Obj:\n    attr = 'Obj.attr'\n    inner = Inner()\n\n\nobj = Obj()\n\n\ndef deco(fn):\n    return fn\n\n\n"
+    head = "import xlib\n\nG = 'xd.G'\n\n\nclass Inner:\n    deep = 'Inner.deep'\n\n\nclass Obj:\n    attr = 'Obj.attr'\n    inner = Inner()\n\n\nobj = Obj()\nGL = [obj]\n\n\ndef deco(fn):\n    return fn\n\n\n"
     if kind == "method":
         params = "self" + (", " + sigtxt if sigtxt else "")
         src = head + "class K:\n    k = 'K.k'\n\n    def f(%s):\n%s\n\n" % (params, "".join("    " + l + "\n" for l in body.splitlines()))
